@@ -456,7 +456,14 @@ def materialise(spec, rng, wdir):
                     cc["signing_key_#2"] = kp2
             kp = pki.path(signer, "priv", c["key_fmt"])
             if c["sign_via"] == "provider":
-                cc["signature_provider"] = f"type=file;file_path={kp}"
+                ptype = "file"
+                if pki.kind_of(signer).startswith("p") and rng.random() < 0.4:
+                    # a plug-in style provider (HSM back end) that returns DER encoded ECDSA signatures
+                    from vf.props.mbi_gen import der_signature_provider
+
+                    ptype = der_signature_provider()
+                    c["der_provider"] = True
+                cc["signature_provider"] = f"type={ptype};file_path={kp}"
             else:
                 cc["signing_key"] = kp
             c["signer"] = signer
